@@ -144,9 +144,20 @@ def run(rep, tier):
             if m is not None:
                 report(rep, {k: model_bytes(m, v[1]) for k, v in vals.items()}, 'the built buffer is not the prescribed concatenation')
         else:
-            # the implementation no longer funnels every value through one percent-encode call: fall back to a solver model + native semantics
-            m = dec.decide(f'content:path{npaths}:structure-fallback', s2, z3.BoolVal(True))
-            report(rep, {k: model_bytes(m, v[1]) for k, v in vals.items()}, 'values are not percent-encoded one call per value', fallback=True)
+            # the implementation no longer funnels every value through one utf8_percent_encode call: decide the semantics directly on
+            # the pieces the buffer was assembled from (ghost state of the BytesMut model): literal text must be the prescribed
+            # separators, and the text written for each value must decode back to it without any raw structural byte
+            sem = semantic_runs(it, s2, buf, vals)
+            if sem is None:
+                m = dec.decide(f'content:path{npaths}:structure-fallback', s2, z3.BoolVal(True))
+                report(rep, {k: model_bytes(m, v[1]) for k, v in vals.items()}, 'the buffer is not assembled from the prescribed literals and one run of text per value', fallback=True)
+            else:
+                for nm, kind, run in sem:
+                    bad = z3.Or(z3.Not(run_ok(run, kind)), z3.Not(bstr_eq(percent_decode(run), vals[nm][1])))
+                    m = dec.decide(f'content:path{npaths}:{nm}:written-text-decodes-to-the-value-without-raw-structural-bytes', s2, bad, bytes_per_value=Lb)
+                    if m is not None:
+                        report(rep, {k: model_bytes(m, v[1]) for k, v in vals.items()}, f'the text written for the {kind} value {nm} does not decode back to it, or contains a raw structural byte')
+                        break
     if npaths == 0:
         rep.inconc('vacuity: no path reached build()')
     # reachability twin replayed natively: values full of separators
@@ -167,6 +178,94 @@ def run(rep, tier):
                         'http::Uri::from_maybe_shared: byte tables PATH_MAP/QUERY_MAP of http 1.x, fragment truncation at #, Err when longer than 65534 bytes',
                         'server side decoding = split on "/" + percent_decode (path), form_urlencoded::parse (query): "+" is a space, first "=" splits']
     rep.outside += [f'values longer than {Lb} bytes for the content query (the encoding is a bytewise map)', 'the macro/generator-side literal and key encoding']
+
+
+def expected_literals():
+    """[(literal text before the slot, slot name, kind)] for TEMPLATE, and the trailing literal"""
+    out, pending, first_q = [], b'', True
+    for t in TEMPLATE:
+        if t[0] == 'lit':
+            pending += t[1]
+        elif t[0] == 'path':
+            out.append((pending + b'/', t[1], 'path'))
+            pending = b''
+        else:
+            out.append((pending + (b'?' if first_q else b'&') + t[1] + b'=', t[2], 'query'))
+            first_q = False
+            pending = b''
+    return out, pending
+
+
+def semantic_runs(it, st, buf, vals):
+    """-> [(value name, kind, text written for it as a bounded string)] or None when the pieces do not have the prescribed shape"""
+    from mirsym.values import bstr_py
+    pcs = models_http.bm_pieces(st, buf)
+    if pcs is None:
+        return None
+    merged = []          # ('lit', bytes) | ('run', BStr)
+    for pc in pcs:
+        py = bstr_py(pc)
+        if py is not None:
+            if merged and merged[-1][0] == 'lit':
+                merged[-1] = ('lit', merged[-1][1] + py)
+            else:
+                merged.append(('lit', py))
+        else:
+            if merged and merged[-1][0] == 'run':
+                merged[-1] = ('run', bstr_concat(merged[-1][1], pc))
+            else:
+                merged.append(('run', pc))
+    slots, trailing = expected_literals()
+    out = []
+    i = 0
+    carry = b''
+    for lit, nm, kind in slots:
+        if not carry:
+            if i >= len(merged) or merged[i][0] != 'lit':
+                return None
+            carry = merged[i][1]
+            i += 1
+        if not carry.startswith(lit):
+            return None
+        carry = carry[len(lit):]
+        if carry:
+            # more literal text follows at once: the value wrote nothing, which is only right when it is empty on this path
+            if it.feasible(st, vals[nm][1].len != 0):
+                return None
+            out.append((nm, kind, bstr(b'')))
+        elif i < len(merged) and merged[i][0] == 'run':
+            out.append((nm, kind, merged[i][1]))
+            i += 1
+        else:
+            if it.feasible(st, vals[nm][1].len != 0):
+                return None
+            out.append((nm, kind, bstr(b'')))
+    if carry != trailing or i != len(merged):
+        return None
+    return out
+
+
+def percent_decode(s):
+    from checks.endpoints import percent_decode as pd
+    return pd(s)
+
+
+def run_ok(s, kind):
+    """every byte of the written text is part of a %XX escape or an ASCII byte that is harmless at a `kind` value position"""
+    from checks.endpoints import hexval
+    K = len(s.bytes)
+    ok = z3.BoolVal(True)
+    skip = z3.BitVecVal(0, 8)
+    allowed = [b for b in range(128) if harmless(b, kind)]
+    for i, b in enumerate(s.bytes):
+        live = z3.ULT(bv(i), s.len)
+        b1 = s.bytes[i + 1] if i + 1 < K else z3.BitVecVal(0, 8)
+        b2 = s.bytes[i + 2] if i + 2 < K else z3.BitVecVal(0, 8)
+        esc = z3.And(b == ord('%'), z3.ULT(bv(i + 2), s.len), hexval(b1)[0], hexval(b2)[0])
+        fresh = z3.And(live, skip == 0)
+        ok = z3.And(ok, z3.Implies(z3.And(fresh, z3.Not(esc)), z3.Or(*[b == a for a in allowed])))
+        skip = z3.If(fresh, z3.If(esc, z3.BitVecVal(2, 8), z3.BitVecVal(0, 8)), z3.If(live, skip - 1, skip))
+    return ok
 
 
 def run_length(rep, prog, fns):
